@@ -208,6 +208,16 @@ func cmdCheck(args []string) int {
 			if needGen[js.Module] {
 				extra, err = generateBindings(js.Module, scratch)
 				if err != nil {
+					if prop == "C13" && generatorRefusesDefaults(js.Module, scratch) {
+						// the generator accepts the harness schemas without their
+						// defaults and refuses them with: a well-formed default is
+						// not applied
+						os.MkdirAll(replayDir, 0o755)
+						rp := filepath.Join(replayDir, "generator-refuses-default.txt")
+						os.WriteFile(rp, []byte(fmt.Sprintf("the generator fails on schemas/vt.manifest.json and succeeds on the same schemas without defaultValue entries\n\n%v\n", err)), 0o644)
+						fmt.Printf("VIOLATION property=%s replay=%s\n  the generator refuses a well-formed schema default (it generates the same schemas once every default is removed): %s\n", prop, rp, trunc(err.Error(), 600))
+						return 1
+					}
 					fmt.Printf("BROKEN: bindings do not generate/compile for module %s: %v\n", js.Module, err)
 					return 2
 				}
